@@ -281,9 +281,76 @@ def _dotted(n):
     return None
 
 
+def clone(node):
+    """Structural copy of a syntax tree: fields and positions only (the analyses hang parent links and caches on nodes; copy.deepcopy
+    would follow them through the whole module)."""
+    if isinstance(node, list):
+        return [clone(x) for x in node]
+    if not isinstance(node, ast.AST):
+        return node
+    new = type(node)()
+    for f in node._fields:
+        if hasattr(node, f):
+            setattr(new, f, clone(getattr(node, f)))
+    for a in ("lineno", "col_offset", "end_lineno", "end_col_offset"):
+        if hasattr(node, a):
+            setattr(new, a, getattr(node, a))
+    return new
+
+
+_ARRAY_ATTRS = {"shape", "dtype", "ndim", "device", "flatten", "ravel", "reshape", "astype", "view", "permute", "transpose", "squeeze",
+                "unsqueeze", "sum", "mean", "abs", "square", "sqrt", "exp", "cos", "sin", "conj", "real", "imag", "float", "double", "long",
+                "to", "clone", "detach", "cpu", "numpy", "min", "max", "argmax", "argmin", "argsort", "cumsum", "prod", "norm", "angle",
+                "fill_", "zero_", "numel", "nelement", "dim", "expand", "repeat", "roll", "flip", "clamp", "clip", "round", "floor", "ceil",
+                "item", "tolist", "nonzero", "any", "all", "T", "mT", "is_complex", "type"}
+
+
+def _array_names(fn) -> set:
+    """Names with syntactic evidence of being numbers / arrays / tensors: bound from a numpy/torch/math call or an array method, used
+    with an array attribute (`x.shape`, `x.flatten()`), or indexed with a tuple (`x[:, None]` — lists and strings cannot be)."""
+    out = set()
+    for n in ast.walk(fn):
+        if isinstance(n, ast.Assign) and isinstance(n.value, ast.Call):
+            d = _dotted(n.value.func)
+            if (d and d.startswith(_LIB_PREFIXES + ("math.",)) and d.split(".")[-1] not in ("where", "nonzero", "meshgrid", "unravel_index", "broadcast_arrays", "split", "load", "save")) \
+                    or (isinstance(n.value.func, ast.Attribute) and n.value.func.attr in _ARRAY_ATTRS - {"tolist", "type", "item"}):
+                for t in n.targets:
+                    if isinstance(t, ast.Name):
+                        out.add(t.id)
+        elif isinstance(n, ast.Attribute) and isinstance(n.value, ast.Name) and n.attr in _ARRAY_ATTRS - {"type", "T", "min", "max", "sum", "item", "any", "all", "round", "to", "real", "imag"}:
+            out.add(n.value.id)
+        elif isinstance(n, ast.Subscript) and isinstance(n.value, ast.Name) and isinstance(n.slice, ast.Tuple):
+            out.add(n.value.id)
+    return out
+
+
 class _Canon(ast.NodeTransformer):
+    def visit_BoolOp(self, n):
+        self.generic_visit(n)
+        # isinstance(x, A) or isinstance(x, B)  →  isinstance(x, (A, B))   (x a plain name / attribute path: evaluated without effects)
+        if isinstance(n.op, ast.Or):
+            vals, i = list(n.values), 0
+            while i + 1 < len(vals):
+                a, b = vals[i], vals[i + 1]
+                if all(isinstance(c, ast.Call) and _dotted(c.func) == "isinstance" and len(c.args) == 2 and not c.keywords
+                       and _dotted(c.args[0]) for c in (a, b)) and _dotted(a.args[0]) == _dotted(b.args[0]):
+                    tys = []
+                    for c in (a, b):
+                        tys.extend(c.args[1].elts if isinstance(c.args[1], ast.Tuple) else [c.args[1]])
+                    vals[i:i + 2] = [ast.Call(func=a.func, args=[a.args[0], ast.Tuple(elts=tys, ctx=ast.Load())], keywords=[])]
+                    continue
+                i += 1
+            if len(vals) == 1:
+                return vals[0]
+            n.values = vals
+        return n
+
     def visit_UnaryOp(self, n):
         self.generic_visit(n)
+        # De Morgan: not (A or B) → not A and not B (same short-circuit order, same bool result)
+        if isinstance(n.op, ast.Not) and isinstance(n.operand, ast.BoolOp):
+            inner = [self.visit_UnaryOp(ast.UnaryOp(op=ast.Not(), operand=v)) for v in n.operand.values]
+            return self.visit_BoolOp(ast.BoolOp(op=ast.And() if isinstance(n.operand.op, ast.Or) else ast.Or(), values=inner))
         if isinstance(n.op, ast.Not) and isinstance(n.operand, ast.Compare) and len(n.operand.ops) == 1:
             flip = {ast.Is: ast.IsNot, ast.IsNot: ast.Is, ast.In: ast.NotIn, ast.NotIn: ast.In, ast.Eq: ast.NotEq, ast.NotEq: ast.Eq}
             t = type(n.operand.ops[0])
@@ -306,13 +373,38 @@ class _Canon(ast.NodeTransformer):
             (isinstance(e, ast.BinOp) and isinstance(e.op, (ast.Mult, ast.Div, ast.Pow, ast.FloorDiv, ast.Mod))) or \
             (isinstance(e, ast.UnaryOp) and isinstance(e.op, ast.USub))
 
+    numeric: set = frozenset()
+
+    def _array_evident(self, e):
+        """syntactic evidence that e is a number / array / tensor (so that `+` on it is commutative): see _array_names"""
+        if self._numericish(e):
+            return True
+        if isinstance(e, ast.BinOp) and isinstance(e.op, (ast.Sub, ast.MatMult)):
+            return True
+        if isinstance(e, ast.BinOp) and isinstance(e.op, ast.Add):
+            return self._array_evident(e.left) and self._array_evident(e.right)
+        if isinstance(e, ast.Call):
+            d = _dotted(e.func)
+            if d and (d.startswith(_LIB_PREFIXES + ("math.",)) or d in ("abs", "float", "int", "len")):
+                return True
+            return isinstance(e.func, ast.Attribute) and e.func.attr in _ARRAY_ATTRS
+        if isinstance(e, ast.Attribute) and e.attr in ("real", "imag", "T"):
+            return True
+        r = e
+        while isinstance(r, ast.Subscript):
+            r = r.value
+        return isinstance(r, ast.Name) and r.id in self.numeric
+
     def visit_BinOp(self, n):
         self.generic_visit(n)
         if isinstance(n.op, ast.Pow) and isinstance(n.right, ast.Constant) and n.right.value == 2 and isinstance(n.right.value, int):
             return ast.Call(func=ast.Attribute(value=n.left, attr="square", ctx=ast.Load()), args=[], keywords=[])
-        if isinstance(n.op, ast.Mult) or (isinstance(n.op, ast.Add) and (self._numericish(n.left) or self._numericish(n.right))
-                                          and not any(isinstance(x, (ast.List, ast.Tuple, ast.JoinedStr)) or (isinstance(x, ast.Constant) and isinstance(x.value, (str, bytes)))
-                                                      for x in (n.left, n.right))):
+        plus = isinstance(n.op, ast.Add) and (((self._numericish(n.left) or self._numericish(n.right))
+                                               and not any(isinstance(x, (ast.List, ast.Tuple, ast.JoinedStr)) or (isinstance(x, ast.Constant) and isinstance(x.value, (str, bytes)))
+                                                           for x in (n.left, n.right)))
+                                              or (self._array_evident(n.left) and self._array_evident(n.right)))
+        # `&` and `^` commute for every operand kind that supports them (ints, bools, arrays, tensors, sets, key views); `|` does not (dict merge)
+        if isinstance(n.op, (ast.Mult, ast.BitAnd, ast.BitXor)) or plus:
             a, b = ast.dump(n.left), ast.dump(n.right)
             if b < a:
                 n.left, n.right = n.right, n.left
@@ -322,6 +414,21 @@ class _Canon(ast.NodeTransformer):
         self.generic_visit(n)
         if n.attr == "newaxis" and isinstance(n.value, ast.Name) and n.value.id in ("np", "numpy", "torch", "xp"):
             return ast.Constant(value=None)
+        return n
+
+    def visit_Subscript(self, n):
+        self.generic_visit(n)
+        # x[a, :] ≡ x[a] and x[a, ...] ≡ x[a] on arrays / tensors (a tuple index is array indexing by construction)
+        if isinstance(n.slice, ast.Tuple) and len(n.slice.elts) >= 2:
+            elts = list(n.slice.elts)
+
+            def full(e):
+                return (isinstance(e, ast.Slice) and e.lower is None and e.upper is None and e.step is None) or \
+                    (isinstance(e, ast.Constant) and e.value is Ellipsis)
+            while len(elts) > 1 and full(elts[-1]):
+                elts.pop()
+            if len(elts) != len(n.slice.elts):
+                n.slice = elts[0] if len(elts) == 1 and not isinstance(elts[0], ast.Starred) else ast.Tuple(elts=elts, ctx=ast.Load())
         return n
 
     def visit_Call(self, n):
@@ -386,12 +493,65 @@ class _Canon(ast.NodeTransformer):
             i += 1
         return out
 
+    _PURE = (ast.Name, ast.Attribute, ast.Subscript, ast.Constant, ast.BinOp, ast.UnaryOp, ast.Tuple, ast.Slice, ast.Load,
+             ast.operator, ast.unaryop)
+
+    def _inline_pure_shared(self, body: list) -> list:
+        """`t = e` with e call-free (names, attributes, subscripts, constants, arithmetic), t bound exactly once, every read of t in the
+        following statements of the same block, nothing e reads rebound / stored into / called upon in between: substitute every read."""
+        import copy
+        out = list(body)
+        i = 0
+        while i < len(out):
+            s1 = out[i]
+            if isinstance(s1, ast.Assign) and len(s1.targets) == 1 and isinstance(s1.targets[0], ast.Name) and s1.targets[0].id in self.shared \
+                    and all(isinstance(x, self._PURE) for x in ast.walk(s1.value)):
+                t = s1.targets[0].id
+                rest = out[i + 1:]
+                roots = {x.id for x in ast.walk(s1.value) if isinstance(x, ast.Name)}
+                n_loads = 0
+                blocked = False
+                for st in rest:
+                    for x in ast.walk(st):
+                        if isinstance(x, ast.Name) and x.id == t and isinstance(x.ctx, ast.Load):
+                            n_loads += 1
+                        elif isinstance(x, ast.Name) and x.id in roots and isinstance(x.ctx, (ast.Store, ast.Del)):
+                            blocked = True
+                        elif isinstance(x, (ast.Attribute, ast.Subscript)) and isinstance(x.ctx, (ast.Store, ast.Del)):
+                            r = x
+                            while isinstance(r, (ast.Attribute, ast.Subscript)):
+                                r = r.value
+                            if isinstance(r, ast.Name) and r.id in roots:
+                                blocked = True
+                        elif isinstance(x, ast.Call):
+                            r = x.func
+                            while isinstance(r, (ast.Attribute, ast.Subscript)):
+                                r = r.value
+                            if (isinstance(r, ast.Name) and r.id in roots and isinstance(x.func, ast.Attribute)) or \
+                                    any(isinstance(a, ast.Name) and a.id in roots for a in x.args):
+                                blocked = True
+                        elif isinstance(x, (ast.FunctionDef, ast.AsyncFunctionDef, ast.Lambda, ast.ClassDef, ast.AugAssign)):
+                            blocked = blocked or any(isinstance(y, ast.Name) and y.id == t for y in ast.walk(x))
+                if not blocked and n_loads == self.loads[t] and n_loads >= 1:
+                    val = s1.value
+
+                    class R(ast.NodeTransformer):
+                        def visit_Name(self, x):
+                            return clone(val) if (x.id == t and isinstance(x.ctx, ast.Load)) else x
+                    out[i + 1:] = [R().visit(st) for st in rest]
+                    del out[i]
+                    continue
+            i += 1
+        return out
+
     def inline_pass(self, node):
         """first pass: substitute single-use temporaries everywhere (before operands are ordered)"""
         for sub in ast.walk(node):
             for fld in ("body", "orelse", "finalbody"):
                 blk = getattr(sub, fld, None)
                 if isinstance(blk, list) and blk and isinstance(blk[0], ast.stmt):
+                    if self.shared:
+                        blk = self._inline_pure_shared(blk) or [ast.Pass()]
                     setattr(sub, fld, self._inline_single_use(blk) or [ast.Pass()])
             for h in getattr(sub, "handlers", []) or []:
                 h.body = self._inline_single_use(h.body) or [ast.Pass()]
@@ -401,12 +561,17 @@ class _Canon(ast.NodeTransformer):
 def canon_digest(fn: ast.AST) -> str:
     import copy
     from collections import Counter
-    cp = copy.deepcopy(fn)
+    cp = clone(fn)
     stores = Counter(x.id for x in ast.walk(cp) if isinstance(x, ast.Name) and isinstance(x.ctx, (ast.Store, ast.Del)))
     loads = Counter(x.id for x in ast.walk(cp) if isinstance(x, ast.Name) and isinstance(x.ctx, ast.Load))
     cn = _Canon()
-    cn.single_use = {n for n in locals_of(cp) if stores[n] == 1 and loads[n] == 1} if isinstance(cp, (ast.FunctionDef, ast.AsyncFunctionDef)) else set()
-    if cn.single_use:
+    isfn = isinstance(cp, (ast.FunctionDef, ast.AsyncFunctionDef))
+    params = {a.arg for a in ast.walk(cp) if isinstance(a, ast.arg)}
+    cn.single_use = {n for n in locals_of(cp) if stores[n] == 1 and loads[n] == 1} if isfn else set()
+    cn.shared = {n for n in locals_of(cp) if stores[n] == 1 and loads[n] >= 2 and n not in params} if isfn else set()
+    cn.loads = loads
+    cn.numeric = _array_names(cp)
+    if cn.single_use or cn.shared:
         cp = cn.inline_pass(cp)
     c = cn.visit(cp)
     ast.fix_missing_locations(c)
